@@ -90,6 +90,17 @@ int main() {
                 vec out(v.size());
                 real_t hv = alpaqa::prox(B, v, out, 1.0);
                 j.v("out", out).d("h", hv);
+                // the same data as an r x c WINDOW of taller matrices (outer stride != rows): a matrix argument need not be contiguous
+                {
+                    long n = v.size(), r = (n % 2 == 0 && n >= 4) ? 2 : 1, c = n / r;
+                    const real_t qn = alpaqa::NaN<config_t>;
+                    mat Min = mat::Constant(r + 2, c, qn); mat Mout = mat::Constant(r + 3, c, qn);
+                    Min.topRows(r) = v.reshaped(r, c);
+                    alpaqa::prox(B, Min.topRows(r), Mout.middleRows(1, r), 1.0);
+                    mat W = Mout.middleRows(1, r);
+                    bool guard = Mout.topRows(1).array().isNaN().all() && Mout.bottomRows(2).array().isNaN().all();
+                    j.v("out_view", vec(W.reshaped())).b("view_guard_ok", guard);
+                }
             } else if (op == "boxstep") {
                 vec lb = vio::rvec<vec>(), ub = vio::rvec<vec>();
                 real_t γf = vio::rd();
@@ -98,6 +109,18 @@ int main() {
                 vec out(x.size()), p(x.size());
                 real_t hv = alpaqa::prox_step(B, x, d, out, p, 1.0, γf);
                 j.v("out", out).v("p", p).d("h", hv);
+                {
+                    long n = x.size(), r = (n % 2 == 0 && n >= 4) ? 2 : 1, c = n / r;
+                    const real_t qn = alpaqa::NaN<config_t>;
+                    mat Mx = mat::Constant(r + 2, c, qn); mat Md = mat::Constant(r + 1, c, qn); mat Mout = mat::Constant(r + 3, c, qn); mat Mp = mat::Constant(r + 2, c, qn);
+                    Mx.topRows(r) = x.reshaped(r, c);
+                    Md.bottomRows(r) = d.reshaped(r, c);
+                    alpaqa::prox_step(B, Mx.topRows(r), Md.bottomRows(r), Mout.middleRows(1, r), Mp.middleRows(1, r), 1.0, γf);
+                    mat W = Mout.middleRows(1, r); mat Wp = Mp.middleRows(1, r);
+                    bool guard = Mout.topRows(1).array().isNaN().all() && Mout.bottomRows(2).array().isNaN().all() &&
+                                 Mp.topRows(1).array().isNaN().all() && Mp.bottomRows(1).array().isNaN().all();
+                    j.v("out_view", vec(W.reshaped())).v("p_view", vec(Wp.reshaped())).b("view_guard_ok", guard);
+                }
             } else if (op == "projdiff") {
                 vec lb = vio::rvec<vec>(), ub = vio::rvec<vec>(), z = vio::rvec<vec>();
                 alpaqa::BoxConstrProblem<config_t> P{alpaqa::Box<config_t>{0},
